@@ -314,7 +314,44 @@ def tour(nodes, edges, init, maxlen):
             cur = edges[ei][1]
         paths.append(p)
     assert all(covered[i] for i in range(len(edges)) if edges[i][0] in parent)
+    # Pairs that edge coverage does not guarantee (managed pool): a step by which the holder of the slots
+    # mutex lets go of it, IMMEDIATELY followed by the step of another task that was parked in front of a
+    # critical section.  The replay sends that task ahead so that it really waits for the mutex (code that
+    # does not wait there - try_lock instead of lock - is only exposed by this adjacency).
+    lock_re = re.compile(r'lock = \\"(\w+)\\"')
+    holder_cache = {}
+
+    def holder(nid):
+        h = holder_cache.get(nid)
+        if h is None:
+            m = lock_re.search(nodes[nid])
+            h = m.group(1) if m else "none"
+            holder_cache[nid] = h
+        return h
+
+    def actor(lbl):
+        m = re.match(r'(\w+)\(\\"(\w+)\\"', lbl)
+        return (m.group(1), m.group(2)) if m else (lbl, "")
+
+    if any(lock_re.search(nodes[n]) for n in list(nodes)[:1]):
+        npairs = 0
+        for e1, (s, d, l1) in enumerate(edges):
+            if s not in parent or holder(s) == "none" or holder(d) != "none":
+                continue
+            a1, t1 = actor(l1)
+            for e2 in out.get(d, ()):
+                a2, t2 = actor(edges[e2][2])
+                if t2 and t2 != t1 and a2 in LOCK_STEPS:
+                    p = path_to(s) + [e1, e2]
+                    if len(p) <= maxlen:
+                        paths.append(p)
+                        npairs += 1
+        sys.stderr.write("tour: %d release/lock-step pairs added\n" % npairs)
     return paths
+
+
+# actions of ManagedPool.tla whose first access is the slots mutex
+LOCK_STEPS = {"GPop", "CSize", "CUnres", "UDrop", "RetLock", "TkLock", "RsLock", "ClLock", "RtStatus", "RtLock"}
 
 
 _G = None
